@@ -1,4 +1,4 @@
-use ahash::{HashMap, HashSet};
+use ahash::HashSet;
 use genawaiter::rc::gen;
 use genawaiter::yield_;
 
@@ -602,7 +602,8 @@ impl Xot {
             return Err(Error::NotElement(node));
         };
         let mut fullname_serializer = FullnameSerializer::new(self, vec![]);
-        let mut missing_namespace_ids = HashSet::default();
+        // the missing namespaces in the order they are met, without repeats
+        let mut missing_namespace_ids = Vec::new();
         for edge in self.traverse(node) {
             match edge {
                 NodeEdge::Start(node) => {
@@ -613,14 +614,18 @@ impl Xot {
                             fullname_serializer.element_fullname(element.name_id);
                         if element_fullname.is_err() {
                             let namespace_id = self.namespace_for_name(element.name_id);
-                            missing_namespace_ids.insert(namespace_id);
+                            if !missing_namespace_ids.contains(&namespace_id) {
+                                missing_namespace_ids.push(namespace_id);
+                            }
                         }
                         for name_id in self.attributes(node).keys() {
                             let attribute_fullname =
                                 fullname_serializer.attribute_fullname(name_id);
                             if attribute_fullname.is_err() {
                                 let namespace_id = self.namespace_for_name(name_id);
-                                missing_namespace_ids.insert(namespace_id);
+                                if !missing_namespace_ids.contains(&namespace_id) {
+                                    missing_namespace_ids.push(namespace_id);
+                                }
                             }
                         }
                     }
@@ -632,16 +637,37 @@ impl Xot {
                 }
             }
         }
-        let mut prefixes_to_add = HashMap::default();
-        for (i, namespace_id) in missing_namespace_ids.iter().enumerate() {
-            let prefix = format!("n{}", i);
-            let prefix_id = self.add_prefix(&prefix);
-            prefixes_to_add.insert(prefix_id, namespace_id);
+        // a generated prefix must be new: not bound in the scope of the node
+        // and not declared anywhere below it, or it would override (or be
+        // overridden by) a binding that names depend on
+        let mut used = self
+            .namespaces_in_scope(node)
+            .map(|(prefix_id, _)| prefix_id)
+            .collect::<HashSet<_>>();
+        for descendant in self.descendants(node) {
+            if self.is_element(descendant) {
+                for (prefix_id, _) in self.namespaces(descendant).iter() {
+                    used.insert(prefix_id);
+                }
+            }
+        }
+        let mut prefixes_to_add = Vec::new();
+        let mut i = 0;
+        for namespace_id in missing_namespace_ids {
+            let prefix_id = loop {
+                let prefix = format!("n{}", i);
+                i += 1;
+                let prefix_id = self.add_prefix(&prefix);
+                if used.insert(prefix_id) {
+                    break prefix_id;
+                }
+            };
+            prefixes_to_add.push((prefix_id, namespace_id));
         }
         let mut namespaces = self.namespaces_mut(node);
 
         for (prefix_id, namespace_id) in prefixes_to_add {
-            namespaces.insert(prefix_id, *namespace_id);
+            namespaces.insert(prefix_id, namespace_id);
         }
         Ok(())
     }
